@@ -429,21 +429,18 @@ class TS:
             if isinstance(c, _nir.SyncReadPort) and c.width > 0:
                 addr = self.val(c.addr)
                 en = self.net(c.en) == 1
-                rows = list(self.mem_rows(c.memory))
+                # Amaranth semantics (sim/_pyrtl.py): data = mem[addr] (0 when out of range); then, for each
+                # transparent write port in order, if addr == write addr the written bits are bypassed —
+                # also when the common address is out of range.
+                data = self.mem_read(c.memory, addr)
                 for pidx, p in write_ports.get(c.memory, []):
                     if pidx in c.transparent_for:
                         waddr = self.val(p.addr)
-                        data = self.val(p.data)
+                        wdata = self.val(p.data)
                         wen = self.val(p.en)
-                        for r in range(len(rows)):
-                            if waddr is None:
-                                hit = z3.BoolVal(r == 0)
-                            elif r >= (1 << waddr.size()):
-                                continue
-                            else:
-                                hit = waddr == z3.BitVecVal(r, waddr.size())
-                            rows[r] = z3.If(hit, (rows[r] & ~wen) | (data & wen), rows[r])
-                self.next[("rp", idx)] = z3.If(en, self.mem_read(c.memory, addr, rows), self.state[("rp", idx)])
+                        same = z3.BoolVal(True) if addr is None else addr == waddr
+                        data = z3.If(same, (data & ~wen) | (wdata & wen), data)
+                self.next[("rp", idx)] = z3.If(en, data, self.state[("rp", idx)])
 
     # ---------------------------------------------------------------- Amaranth-level access
     def nets(self, value):
